@@ -16,7 +16,9 @@ namespace Qv.C03
 
 open Matrix
 
-variable {n : Type} [Fintype n] [DecidableEq n]
+/- `Nonempty n`: a `Qobj` has at least one row (qutip rejects empty objects); it is what makes
+"A Hermitian, z not real ⇒ A + z·1 not Hermitian" true. -/
+variable {n : Type} [Fintype n] [DecidableEq n] [Nonempty n]
 
 /-- a quantum object: matrix and the two tri-state caches -/
 structure Obj (n : Type) where
@@ -39,6 +41,8 @@ structure Rules where
   powH : Tri → Tri → Tri
   powU : Tri → Tri → Tri
   mulRealH : Tri → Tri → Tri
+  saddRealH : Tri → Tri → Tri
+  saddImagH : Tri → Tri → Tri
 
 structure Rules.Allowed (R : Rules) : Prop where
   addH : ruleAllowed .addH R.addH = true
@@ -52,6 +56,8 @@ structure Rules.Allowed (R : Rules) : Prop where
   powH : ruleAllowed .powH R.powH = true
   powU : ruleAllowed .powU R.powU = true
   mulRealH : ruleAllowed .mulRealH R.mulRealH = true
+  saddRealH : ruleAllowed .saddRealH R.saddRealH = true
+  saddImagH : ruleAllowed .saddImagH R.saddImagH = true
 
 /-- a rule that passes `ruleAllowed` for an operation whose strongest claim is "nothing" claims nothing -/
 theorem allowed_none {op : Op} {r : Tri → Tri → Tri} (hr : ruleAllowed op r = true)
@@ -61,6 +67,7 @@ theorem allowed_none {op : Op} {r : Tri → Tri → Tri} (hr : ruleAllowed op r 
 inductive Step (n : Type)
   | add (i j : Nat) | sub (i j : Nat) | neg (i : Nat) | matmul (i j : Nat) | dag (i : Nat)
   | pow (i : Nat) (k : Nat) | mulReal (i : Nat) (r : ℝ)
+  | sadd (i : Nat) (z : ℂ)            -- a number next to a square object: A + z·1
   | readH (i : Nat) | readU (i : Nat)
   | fresh (A : Matrix n n ℂ)          -- a new object with empty caches
 
@@ -88,6 +95,10 @@ noncomputable def exec (R : Rules) (st : List (Obj n)) : Step n → List (Obj n)
     | none => st
   | .mulReal i r => match st[i]? with
     | some x => if r = 0 then st else st ++ [⟨(r : ℂ) • x.mat, R.mulRealH x.h none, none⟩]
+    | none => st
+  | .sadd i z => match st[i]? with
+    | some x => st ++ [⟨x.mat + z • (1 : Matrix n n ℂ),
+        if z.im = 0 then R.saddRealH x.h none else R.saddImagH x.h none, none⟩]
     | none => st
   | .readH i => match st[i]? with
     | some x => st.set i { x with h := some (decide x.mat.IsHermitian) }
@@ -168,6 +179,21 @@ theorem exec_sound (R : Rules) (hR : R.Allowed) (st : List (Obj n)) (hs : ∀ o 
       · exact hs
       · rename_i hr
         exact sound_append hs ⟨allowed_sound hR.mulRealH _ _ (mulRealH_sound _ r hr _ _ sx.1), sound_none _⟩
+    · exact hs
+  | sadd i z =>
+    simp only [exec]
+    split
+    · rename_i x hx
+      have sx := hs x (mem_of_getElem? hx)
+      refine sound_append hs ⟨?_, sound_none _⟩
+      show Qv.C03.Sound (if z.im = 0 then R.saddRealH x.h none else R.saddImagH x.h none) _
+      split
+      · rename_i hz
+        have hzr : z = ((z.re : ℝ) : ℂ) := Complex.ext (by simp) (by simpa using hz)
+        rw [hzr]
+        exact allowed_sound hR.saddRealH _ _ (saddRealH_sound _ z.re _ _ sx.1)
+      · rename_i hz
+        exact allowed_sound hR.saddImagH _ _ (saddImagH_sound _ z hz _ _ sx.1)
     · exact hs
   | readH i =>
     simp only [exec]
